@@ -137,6 +137,12 @@ def _plane_obj(lentil, st, lam, N):
             big[::2, ::2] = x
             return big[::2, ::2]                       # 'strided'
         a, o = relay(a), relay(o)
+    if st.get('opd_dtype') and isinstance(o, np.ndarray):
+        # an OPD map stored in single precision (a 32-bit FITS image): used only when every value is exactly representable, so that
+        # the map is the SAME map and any difference is arithmetic done in the narrow type
+        o_n = o.astype(st['opd_dtype'])
+        if np.array_equal(o_n.astype(float), o):
+            o = o_n
     kw = dict(amplitude=a, opd=o, mask=m, pixelscale=px)
     if cls == 'Pupil':
         p = lentil.Pupil(focal_length=None if st['z'] == [] else float(rf(st['z'])), **kw)
